@@ -1,4 +1,5 @@
 import PhysisModel.Proofs.Dat
+import PhysisModel.Properties.C01
 /-!
 # C02 — extraction returns exactly the bytes that were packed
 
@@ -146,6 +147,23 @@ theorem c02_model_header_describes (m : ModelMeta) (s : ModelSections) :
     simp only [] at he
     subst he
     rfl
+
+/-- End to end (C01 + C02): if a stored path's index entry points at a packed standard entry in its
+dat file, `GameData::extract(path)` returns exactly the packed content — after any query history,
+whatever else the dat file contains. -/
+theorem c02_extract_standard (inflate : Inflate) (disk : GameData.Disk) (a : Spec.Archive.Archive)
+    (hr : Spec.Archive.Realises disk a) (hw : a.WF) (qs : List GameData.Query) (p : Bytes)
+    (l : Spec.Archive.Loc) (hl : Spec.Archive.locate a p = some l)
+    (bs : List Block) (hwf : standardWf bs = true) (hd : ∀ b ∈ bs, Deflated inflate b) (pre suf : Bytes)
+    (hoff : pre.length = l.offset.toNat)
+    (hsz : pre.length + (packStandard bs).length < 18446744073709551616)
+    (hdat : disk (Spec.Archive.repoDir l.exp)
+      (Spec.Archive.datName a.platform l.exp l.cat l.chunk l.datId.toNat) = some (pre ++ packStandard bs ++ suf)) :
+    (GameData.extractFull inflate disk (GameData.run disk (GameData.fresh a) qs) p).1 =
+      some (some (contents bs)) := by
+  rw [C01.c01_extract_reads inflate disk a hr hw qs p, hl]
+  simp only [hdat, ← hoff]
+  exact c02_standard inflate bs hwf hd pre suf hsz
 
 /-! ### non-vacuity: an `inflate` that understands RFC 1951 *stored* blocks, and a mixed entry -/
 
